@@ -1,13 +1,23 @@
 /-
-Abstract specification of de-duplication, written from the text of property C10 (and the doc
-comment "identical messages are grouped for a duration of `dedup_threshold`"), not from the loop:
-there is no heap and no expiry bookkeeping here.
+The grouping rule AS IMPLEMENTED, without the heap: an abstract description of what
+`deduplicate_messages` does in terms of groups and windows only (no heap, no expiry bookkeeping).
+It is NOT an independent reading of "window": the order of the two actions of one iteration — the
+arrival JOINS the group of its frame first, THEN every group with `first + w ≤ t` is closed — is the
+order of the loop body (dedup.rs:32 before dedup.rs:42), and it is exactly the quirk shown by
+`Props/C10.lean: closing_arrival_joins_its_group` (the arrival that closes the group of its own
+frame is still merged into it, however late it is).  `refines_spec` is therefore heap elimination,
+not conformance to an independent specification.  The independent reading (close first, then join)
+is `Spec/DedupStrict.lean`; the two are compared in `Props/C10.lean` (`strict_spec_agrees_iff`,
+`strict_spec_differs`).  The clauses of property C10 (conservation, exactly once, first-arrival time
+stamp, arrival order, spacing, order) do not depend on that choice and are proved for the model
+directly.
 
   * The receptions of one frame are partitioned into *groups*.  A group is opened by an arrival of
     a frame that has no open group; every later arrival of that frame joins the open group.
   * The *window* of a group is `[first, first + w)` where `first` is the time stamp of the arrival
     that opened it.  The group is closed by the first arrival (of any frame, itself included) whose
-    time stamp is at or after `first + w`.
+    time stamp is at or after `first + w` — AFTER that arrival has joined (so an arrival of the
+    group's own frame that closes it is its last member, outside the window).
   * A closed group leaves as one record: its frame, the time stamp of its first arrival, and the
     receptions of all its members in arrival order — provided the frame is decodable; otherwise the
     group is dropped.
